@@ -300,6 +300,9 @@ def run_tlc(module, cfg, *, workers=16, timeout=900, coverage=False, simulate=No
             cmd += ['-coverage', '1']
         if simulate is not None:
             cmd += ['-simulate', simulate]
+            m = re.search(r'file=([^,]+)', simulate)
+            if m and os.path.dirname(m.group(1)):
+                os.makedirs(os.path.join(scratch, os.path.dirname(m.group(1))), exist_ok=True)
         if depth is not None:
             cmd += ['-depth', str(depth)]
         if seed is not None:
